@@ -101,7 +101,13 @@ fn cmd_optimize_cases(args: &[String]) {
             let (c, stage_bags) = if job.get("owners").is_some() {
                 let owners: Vec<_> = job["owners"].as_array().unwrap().iter().map(compile::io_status).collect();
                 let outs: Vec<_> = job["outs"].as_array().unwrap().iter().map(compile::io_status).collect();
-                let r = compile::compile(&c0, &owners, &outs, job["mode"].as_str().unwrap())?;
+                let r = match compile::compile(&c0, &owners, &outs, job["mode"].as_str().unwrap()) {
+                    Ok(r) => r,
+                    Err(e) => {
+                        // the compiler rejects the source program: there is no optimisation step to judge
+                        return Ok(json!({"id": job["id"], "res": "builderr", "msg": format!("compile: {}", e), "before": [], "after": [], "map": [], "evals": [], "stages": {}}));
+                    }
+                };
                 let mut bags = serde_json::Map::new();
                 for (name, ctx) in r.stages.iter() {
                     let mut b = compile::prf_bag(&ctx.get_main_graph()?);
